@@ -52,7 +52,8 @@ TABLE = {
                                           {"remove_peer_connection", "_assign_peer_connection"}),
     ("Node", "_peer_waiting_answer"): ("paired", {"_receive_app_request"},
                                        {"route_answer", "send_message", "remove_peer_connection"}),
-    ("Node", "_app_waiting_answer"): ("paired", {"route_request"}, {"_receive_app_answer"}),
+    ("Node", "_app_waiting_answer"): ("paired", {"route_request"},
+                                      {"_receive_app_answer", "remove_peer_connection"}),
     ("Node", "_origin_waiting_answer"): ("paired", {"_receive_message"},
                                          {"_record_answer", "remove_peer_connection"}),
     ("Node", "_sent_answers"): ("bounded-values", {"_record_answer"}, set()),
@@ -471,7 +472,8 @@ def _allowed_extra(key, fn_name, extra) -> bool:
             ok.append(True)
         elif key == ("Application", "_answer_waiting"):
             ok.append(True)
-        elif key == ("Node", "_origin_waiting_answer") and fn_name == "remove_peer_connection" \
+        elif key in (("Node", "_origin_waiting_answer"), ("Node", "_app_waiting_answer")) \
+                and fn_name == "remove_peer_connection" \
                 and ".startswith(" in s and "ident" in s and t:
             ok.append(True)          # selects the removed connection's own entries (key prefix)
         else:
